@@ -4,6 +4,8 @@ import Mathlib.Topology.Order.IntermediateValue
 import Mathlib.Topology.Algebra.Monoid
 import Mathlib.Data.Real.Basic
 import Mathlib.Topology.Instances.Real.Lemmas
+import Mathlib.Analysis.SpecialFunctions.Log.Basic
+import Mathlib.Analysis.SpecialFunctions.Sqrt
 
 /-!
 The log-barrier update of Corral over the reals: the function
@@ -334,5 +336,16 @@ theorem first_bracket_root_model (ps etas losses : List Rat) (hne : ps ≠ []) (
       (∃ M ∈ tris ps etas losses, (∀ t ∈ tris ps etas losses, t.2.2 ≤ M.2.2) ∧ x ≤ M.2.2) :=
   barrier_unique_root _ (tris_ne ps etas losses hne h1 h2) (tris_ok ps etas losses hp he)
     (by rw [tris_sum ps etas losses h1 h2, hsum]; norm_num)
+
+/-- the two `sqrt` arguments of BanditUCB's index `sqrt(ln t / s * min(1/4, var + sqrt(2 ln t / s)))` are
+non-negative once `t ≥ 1`, `s ≥ 1` (guaranteed by `Ucb.Inv`) and `var ≥ 0` (guaranteed by Welford) -/
+theorem ucb_index_args_nonneg' (t s : ℕ) (ht : 1 ≤ t) (hs : 1 ≤ s) (var : ℝ) (hvar : 0 ≤ var) :
+    0 ≤ 2 * Real.log t / s ∧ 0 ≤ Real.log t / s * min (1 / 4) (var + Real.sqrt (2 * Real.log t / s)) := by
+  have hl : 0 ≤ Real.log t := Real.log_nonneg (by exact_mod_cast ht)
+  have hs' : (0 : ℝ) < s := by exact_mod_cast hs
+  have h1 : 0 ≤ 2 * Real.log t / s := by positivity
+  refine ⟨h1, mul_nonneg (by positivity) (le_min (by norm_num) ?_)⟩
+  have := Real.sqrt_nonneg (2 * Real.log t / s)
+  linarith
 
 end Coba.C16
